@@ -44,6 +44,21 @@ extern crate alloc;
 #[macro_use]
 mod macros;
 
+// Coverage counters for verification harnesses (`--cfg recmo_uint_verif`).
+#[cfg(all(recmo_uint_verif, feature = "std"))]
+#[doc(hidden)]
+pub mod verif_hooks;
+#[cfg(all(recmo_uint_verif, feature = "std"))]
+macro_rules! verif_hit {
+    ($id:expr) => {
+        $crate::verif_hooks::hit($id)
+    };
+}
+#[cfg(not(all(recmo_uint_verif, feature = "std")))]
+macro_rules! verif_hit {
+    ($id:expr) => {};
+}
+
 mod add;
 pub mod algorithms;
 pub mod aliases;
